@@ -1,6 +1,6 @@
 """C17 - every API call is a pure function of its arguments."""
 import math, os, random
-from . import core, params, cells, calls, fresh, geo
+from . import core, params, cells, calls, fresh, geo, testtraces
 
 TODAY = dict(RefOff=10, SqOff=20, FaceMul=10, STRefOff=120)
 
@@ -52,7 +52,8 @@ def slots_module(ftab, stab):
             "EXTENDS Integers, TLC\nFTTab == %s\nSTTab == %s\n====\n" % (fl, sl))
 
 
-def cache_events(hooks):
+def cache_events(hooks, strict=True):
+    """strict: the events come from ONE cache instance, so hit must equal 'slot seen before'"""
     out = []
     for h in hooks:
         if h.get("ev") != "cache":
@@ -62,13 +63,13 @@ def cache_events(hooks):
             t, r, s = k
             model = t + ((TODAY["SqOff"] if s else TODAY["RefOff"]) if r else 0)
             # squashing only matters for reflected triangles: the requested VALUE is (t, r, r and s)
-            out.append({"ev": "cache", "cache": "face", "key": "%d,%s,%s" % (t, r, bool(r and s)), "slot": str(h["slot"]), "hit": bool(h["hit"]), "modelslot": str(model)})
+            out.append({"ev": "cache", "cache": "face", "key": "%d,%s,%s" % (t, r, bool(r and s)), "slot": str(h["slot"]), "hit": bool(h["hit"]), "modelslot": str(model), "strict": strict})
         elif h["cache"] == "spherical":
             t, f, r = k
             model = TODAY["FaceMul"] * f + t + (TODAY["STRefOff"] if r else 0)
-            out.append({"ev": "cache", "cache": "spherical", "key": "%d,%d,%s" % (f, t, r), "slot": str(h["slot"]), "hit": bool(h["hit"]), "modelslot": str(model)})
+            out.append({"ev": "cache", "cache": "spherical", "key": "%d,%d,%s" % (f, t, r), "slot": str(h["slot"]), "hit": bool(h["hit"]), "modelslot": str(model), "strict": strict})
         else:
-            out.append({"ev": "cache", "cache": "constants", "key": calls.digest(k), "slot": calls.digest(h.get("slot", k)), "hit": bool(h["hit"]), "modelslot": ""})
+            out.append({"ev": "cache", "cache": "constants", "key": calls.digest(k), "slot": calls.digest(h.get("slot", k)), "hit": bool(h["hit"]), "modelslot": "", "strict": strict})
     return out
 
 
@@ -291,6 +292,12 @@ def run(v):
             events += ev
     finally:
         fr.close()
+    # the repository's own tests as a driver: the cache lookups of one whole pytest process are one more history
+    summary, tev = testtraces.record(d, ["tests/projections/test_dodecahedron.py", "tests/core/test_compact.py", "tests/core/test_tiling.py", "tests/core/test_serialization.py"] if quick else ["tests"])
+    tcache = testtraces.cache_trace(tev)
+    v.cov["repo_test_run"] = summary
+    v.cov["cache_lookups_recorded_from_repo_tests"] = len(tcache) - 1
+    events += tcache
     # the trace is validated in chunks cut at "reset" lines (no state crosses a reset); chunks run in parallel,
     # each TLC single-threaded because the specification is a line-by-line chain
     cuts = [0]
